@@ -76,6 +76,16 @@ def expr_str():
     )
 
 
+def expr_pct_str():
+    """Operator expression with NUMBER% operands (10%→50%→done): quoted canonically, may be written bare."""
+    operand = st.one_of(st.sampled_from(["10%", "50%", "100%", "12.5%", "25%_done", "0%"]), WORD)
+    return st.builds(
+        lambda first, ws, ops: first + "".join(o + w for o, w in zip(ops, ws)),
+        st.sampled_from(["10%", "7.5%", "25%_done"]), st.lists(operand, min_size=1, max_size=3),
+        st.lists(st.sampled_from([o for o in OPS if o != "∧"]), min_size=3, max_size=3),
+    )
+
+
 HOSTILE_ATOMS = list("ab1 _.-/:[],<>{}$#§→⊕∧|&+~%=;()\"\\'") + [
     "\n", "\t", "\u00e9", "e\u0301", "\U0001F600", "::", "//", "true", "null", "vs", "->", "<->", "```", "===", "---",
     "\x0c", "\x85", "\u2028", "\x1c", "\r", "\\u0041", "\\x41", "\\N{DASH}", "%41"]  # (FF, NEL, LS, FS: line breaks for str.splitlines(), ordinary data for OCTAVE)
@@ -125,6 +135,7 @@ def str_value(avoid: frozenset = frozenset()):
         st.sampled_from(["$VAR", "$1:name", "$MY_VAR123", "$x"]).map(S("variable")),
         st.builds(lambda w: "§" + w, st.one_of(WORD, st.sampled_from(["1", "3", "12"]))).map(S("secref")),
         expr_str().map(S("expr")),
+        expr_pct_str().map(S("expr_pct")),
         st.builds(lambda a, b: f"{a}<{b}>", WORD, WORD).map(S("annotation")),
         # annotation shape with a non-ASCII letter: always quoted canonically; NAME{q} with such a name is repaired by the
         # lenient tokenizer and (documented limitation) may be refused by octave_write(lenient=true)
